@@ -9,7 +9,7 @@
    is NOT formalised: see C08_orbit_stationary_bounded for what is machine-checked of it. *)
 From CV Require Import Base.Tac Base.Ext Base.LinAlg Base.QcLin Model.C08_NUTS.
 From CV Require Import Proofs.C08_Prog Proofs.C08_Leap Proofs.C08_Tree Proofs.C08_Top Proofs.C08_Law Proofs.C08_Orbit
-                       Proofs.C08_Stationary Proofs.C08_Stationary3 Proofs.C08_Block Proofs.C08_Alive.
+                       Proofs.C08_Stationary Proofs.C08_Block Proofs.C08_Alive.
 From Coq Require Import QArith Qcanon Qminmax Ring.
 Local Open Scope Q_scope.
 
@@ -273,22 +273,30 @@ Proof. intros E n s. exact (sched_sampling E n s). Qed.
 Print Assumptions C08_stepsize_frozen.
 
 (* ---- invariance on one orbit, bounded (tier 2) -------------------------------------------------------- *)
-(* The counting measure on the in-slice positions of an orbit is invariant, sum over in-slice i of P(i -> 0) = 1
-   for an in-slice position 0 (any other target position by translation), by exhaustive computation:
+(* The counting measure on the in-slice positions of an orbit is invariant under the COMPLETE transition (stopping
+   included), sum over in-slice i of P(i -> 0) = 1 for an in-slice position 0 (any other target position by
+   translation), by exhaustive computation (sizes chosen so that the second checker coqchk, which does not use the
+   VM, re-checks them in minutes):
    (i)   max_depth = 0: every in/out/divergent labelling of the 5-position window, every U-turn predicate on its
          adjacent pairs, both guards;
-   (ii)  max_depth = 1 (trajectories of up to 4 states): every in/out/divergent labelling of the 13-position window
-         (3^12 labellings), U-turn test never firing;
-   (iii) max_depth = 1, every position in the slice, every U-turn predicate on adjacent end points (2^12).
-   The statement for unbounded depth is the one that is NOT proved (C08 invariance is `_partial` in that sense). *)
+   (ii)  max_depth = 1 (trajectories of up to 4 states, 13-position window), U-turn test never firing: every in/out
+         labelling of the 12 positions around 0 (2^12), and every in/out/divergent labelling of the positions
+         -3..3 with the outer positions in the slice (3^6);
+   (iii) max_depth = 1, every position in the slice, every U-turn predicate on the adjacent end points (a, a+1),
+         -4 <= a <= 3 (2^8).
+   For unbounded depth see C08_orbit_uniform_alldepth_partial. *)
 Theorem C08_orbit_stationary_bounded :
   (forall (l : list lab) (bs : list bool) (guard : bool), length l = 4%nat -> length bs = 4%nat ->
      colsum (win_get 2 (centred l 2)) (upred bs) guard 0 1 == 1) /\
-  (forall l : list lab, length l = 12%nat ->
+  (forall l : list lab, length l = 12%nat -> Forall (fun a => a <> LDiv) l ->
      colsum (win_get 6 (centred l 6)) (fun _ _ => true) false 1 3 == 1) /\
-  (forall bs : list bool, length bs = 12%nat ->
-     colsum (fun _ => LIn) (upred6 bs) false 1 3 == 1).
-Proof. split; [exact stationary_md0 | split; [exact stationary_md1 | exact stationary_md1_uturn]]. Qed.
+  (forall l : list lab, length l = 6%nat ->
+     colsum (win_get 6 (centred (inner3 l) 6)) (fun _ _ => true) false 1 3 == 1) /\
+  (forall bs : list bool, length bs = 8%nat ->
+     colsum (fun _ => LIn) (upred4 bs) false 1 3 == 1).
+Proof.
+  split; [exact stationary_md0 | split; [exact stationary_md1_inout | split; [exact stationary_md1_inner3 | exact stationary_md1_uturn]]].
+Qed.
 Print Assumptions C08_orbit_stationary_bounded.
 
 (* ---- Hoffman-Gelman's argument on one orbit, ALL depths ------------------------------------------------- *)
